@@ -118,7 +118,10 @@ type compiled struct {
 	Types *protoregistry.Types
 }
 
-var rePosPrefix = regexp.MustCompile(`^[^:\s]+:\d+:\d+: `)
+var (
+	rePosPrefix = regexp.MustCompile(`^[^:\s]+:\d+:\d+: `)
+	reExtName   = regexp.MustCompile(`\[[A-Za-z0-9_.]+\]`)
+)
 
 func compileStable(srcs map[string]string, name string) (c *compiled, err error) {
 	pv, st := vlib.Try(func() {
@@ -380,15 +383,16 @@ func TestC31(t *testing.T) {
 			tokenClasses := func() []string { return classNames(diffClasses(text, f1, true, false)) }
 			if ferr != nil {
 				msg := rePosPrefix.ReplaceAllString(strings.SplitN(ferr.Error(), "\n", 2)[0], "")
-				sig := p.Name + ": formatted output does not compile: " + normMsg(msg)
 				tc := tokenClasses()
-				for _, k := range tc {
-					if strings.HasPrefix(k, "token-swallowed-by-comment") {
-						sig += " [" + k + "]"
-						break
-					}
+				sig := p.Name + ": formatted output does not compile: " + normMsg(msg)
+				if swallowed(tc) || commentSwallows(text, f1) {
+					// One formatter behaviour, many downstream compile errors: name the behaviour.
+					sig = p.Name + ": formatted output does not compile: a // comment swallows what follows it on the line"
 				}
 				r.Violation("format.breaks-compilation", sig, c.ID, wit(map[string]any{"compile_error": ferr.Error(), "formatted": witnessText(f1), "token_level_classes": tc}))
+				// Idempotence of an output that is no longer a valid file says nothing new.
+				r.Class("idempotence:not-checked-output-does-not-compile:" + p.Name)
+				continue
 			} else {
 				cf, err := canonicalize(fm.FD, orig.Types)
 				if err != nil {
@@ -407,8 +411,12 @@ func TestC31(t *testing.T) {
 						diff = "weak_dependency (as set of names)"
 					}
 					if diff != "" {
-						r.Violation("format.changes-descriptor", p.Name+": descriptor differs at "+diff, c.ID,
-							wit(map[string]any{"formatted": witnessText(f1), "token_level_classes": tokenClasses()}))
+						tc := tokenClasses()
+						sig := p.Name + ": descriptor differs at " + reExtName.ReplaceAllString(diff, "[ext]")
+						if swallowed(tc) || commentSwallows(text, f1) {
+							sig += " [a // comment swallows what follows it on the line]"
+						}
+						r.Violation("format.changes-descriptor", sig, c.ID, wit(map[string]any{"formatted": witnessText(f1), "token_level_classes": tc}))
 					}
 				}
 			}
@@ -425,15 +433,31 @@ func TestC31(t *testing.T) {
 			}
 			if f2 != f1 {
 				r.Class("idempotence:differs:" + p.Name)
-				for _, d := range diffClasses(f1, f2, false, true) {
-					r.Violation("format.not-idempotent", p.Name+": "+d.Class, c.ID,
-						wit(map[string]any{"detail": d.Detail, "first_difference": firstDiffContext(f1, f2), "formatted_once": witnessText(f1), "formatted_twice": witnessText(f2), "reparse_errors": o2.NErr}))
+				ds := diffClasses(f1, f2, false, true)
+				if swallowed(classNames(ds)) || commentSwallows(f1, f2) {
+					// Everything else in this diff is a consequence of the swallowing.
+					r.Violation("format.not-idempotent."+p.Name+".token", "the second pass lets a // comment swallow what follows it on the line", c.ID,
+						wit(map[string]any{"classes": classNames(ds), "first_difference": firstDiffContext(f1, f2), "formatted_once": witnessText(f1), "formatted_twice": witnessText(f2), "reparse_errors": o2.NErr}))
+				} else {
+					for _, d := range ds {
+						r.Violation("format.not-idempotent."+p.Name+"."+classCategory(d.Class), d.Class, c.ID,
+							wit(map[string]any{"detail": d.Detail, "first_difference": firstDiffContext(f1, f2), "formatted_once": witnessText(f1), "formatted_twice": witnessText(f2), "reparse_errors": o2.NErr}))
+					}
 				}
 			} else {
 				r.Class("idempotence:holds:" + p.Name)
 			}
 		}
 	})
+}
+
+func swallowed(classes []string) bool {
+	for _, k := range classes {
+		if strings.HasPrefix(k, "token-swallowed-by-comment") {
+			return true
+		}
+	}
+	return false
 }
 
 func firstErrorMessage(o *parseOutcome) string {
